@@ -22,5 +22,5 @@ OpsFor(ch) ==
   <<[op |-> "config", now |-> ch[Len(ch)].now, targets |-> ch[Len(ch)].targets], [op |-> "clean"]>> \o Steps(ch, 1)
 
 EmitHist == Complete =>
-  \A j \in 1..Len(Chains) : EmitRec([id |-> "", src |-> Doc \o <<NL>>, ops |-> OpsFor(Chains[j])])
+  \A j \in 1..Len(Chains) : EmitRec([id |-> "", src |-> GenDoc \o <<NL>>, ops |-> OpsFor(Chains[j])])
 =============================================================================
